@@ -97,6 +97,7 @@ type Out struct {
 	Must     map[string]Res    `json:"must,omitempty"`    // conf.MustLoad where Load succeeded
 	Depr     map[string]Res    `json:"depr,omitempty"`    // LoadConfigFromJsonBytes / LoadConfigFromYamlBytes / LoadConfig
 	Fill     *Res              `json:"fill,omitempty"`    // conf.FillDefault on a fresh value
+	Plain    []Res             `json:"plain,omitempty"`   // mapping.UnmarshalJsonBytes (exact keys) on the same type, before and after the conf loads
 	PropsOn  map[string]string `json:"propson,omitempty"`
 	PropsOff map[string]string `json:"propsoff,omitempty"`
 	PropsErr string            `json:"propserr,omitempty"`
@@ -299,8 +300,9 @@ func render(d *Doc, jsonOnly bool) (map[string]string, error) {
 
 // ---------------------------------------------------------------- running
 
-func run(rt reflect.Type, call func(target any) error) (res Res) {
-	target := reflect.New(rt)
+func run(rt reflect.Type, call func(target any) error) Res { return runInto(reflect.New(rt), call) }
+
+func runInto(target reflect.Value, call func(target any) error) (res Res) {
 	defer func() {
 		if p := recover(); p != nil {
 			res = Res{Verdict: "panic", Err: fmt.Sprint(p)}
@@ -322,11 +324,27 @@ func run(rt reflect.Type, call func(target any) error) (res Res) {
 
 var formats = []string{"json", "yaml", "toml"}
 
+// run2: the same load twice into two fresh values; besides the verdict of the first, the two
+// loaded configurations must be equal and must not share storage with each other
+func run2(rt reflect.Type, call func(target any) error) Res {
+	first := reflect.New(rt)
+	r := runInto(first, call)
+	if r.Verdict != "ok" {
+		return r
+	}
+	second := reflect.New(rt)
+	r2 := runInto(second, call)
+	if r2.Verdict != "ok" || !reflect.DeepEqual(r.Val, r2.Val) || c17t.C17SharedAmong(first.Elem(), second.Elem()) {
+		return Res{Verdict: "shared", Val: r.Val, Err: "a second load of the same text differs from or shares storage with the first"}
+	}
+	return r
+}
+
 func loadBytes(rt reflect.Type, texts map[string]string) map[string]Res {
 	res := map[string]Res{}
-	res["json"] = run(rt, func(t any) error { return conf.LoadFromJsonBytes([]byte(texts["json"]), t) })
-	res["yaml"] = run(rt, func(t any) error { return conf.LoadFromYamlBytes([]byte(texts["yaml"]), t) })
-	res["toml"] = run(rt, func(t any) error { return conf.LoadFromTomlBytes([]byte(texts["toml"]), t) })
+	res["json"] = run2(rt, func(t any) error { return conf.LoadFromJsonBytes([]byte(texts["json"]), t) })
+	res["yaml"] = run2(rt, func(t any) error { return conf.LoadFromYamlBytes([]byte(texts["yaml"]), t) })
+	res["toml"] = run2(rt, func(t any) error { return conf.LoadFromTomlBytes([]byte(texts["toml"]), t) })
 	return res
 }
 
@@ -521,6 +539,18 @@ func runCase(c Case, dir string) (out Out) {
 			out.Load2 = loadBytes(rt, out.Texts2)
 		}
 	case "load":
+		// the same TYPE goes through unmarshalers with different options (exact keys, canonical keys,
+		// fill-default) in one process, in varying order: whatever they memoise per type must not leak
+		plain := func() Res {
+			return run(rt, func(t any) error { return mapping.UnmarshalJsonBytes([]byte(texts["json"]), t) })
+		}
+		var fillFirst *Res
+		if c.ID%2 == 1 {
+			f := run(rt, func(t any) error { return conf.FillDefault(t) })
+			fillFirst = &f
+		} else {
+			out.Plain = append(out.Plain, plain())
+		}
 		out.Load = loadBytes(rt, texts)
 		if out.ByExt, out.Must, err = loadByExt(rt, dir, texts); err != nil {
 			out.Fail = "files: " + err.Error()
@@ -532,6 +562,10 @@ func runCase(c Case, dir string) (out Out) {
 		}
 		f := run(rt, func(t any) error { return conf.FillDefault(t) })
 		out.Fill = &f
+		if fillFirst != nil && !reflect.DeepEqual(*fillFirst, f) {
+			out.Fill = &Res{Verdict: "shared", Err: "FillDefault before and after the loads differ"}
+		}
+		out.Plain = append(out.Plain, plain())
 		if c.Doc2 != nil {
 			out.Load2 = loadBytes(rt, out.Texts2)
 		}
